@@ -43,6 +43,9 @@ func (d DID) DID() DID {
 
 // String formats the decentralized identity document (DID) as a string.
 func (d DID) String() string {
+	if !d.Defined() {
+		return ""
+	}
 	if d.key {
 		key, _ := mbase.Encode(mbase.Base58BTC, []byte(d.str))
 		return "did:key:" + key
